@@ -1,7 +1,7 @@
 (* C13 - boundary operators form a chain complex. *)
 From Coq Require Import String ZArith List Bool.
 From XV Require Import Base.Label Base.LSet Base.ODict Base.Attr Base.Outcome Model.Hypergraph
-  Model.SimplicialComplex Model.Hodge Proofs.HodgeProofs.
+  Model.SimplicialComplex Model.Hodge Proofs.HgViews Proofs.ScInv Proofs.HodgeProofs Proofs.HodgeMore Proofs.SortProofs Proofs.ChainComplex.
 Import ListNotations.
 Open Scope Z_scope.
 
@@ -36,3 +36,41 @@ Example C13_nonvacuous :
   mat_mul 1 (boundary_matrix s o 1) (boundary_matrix s o 2) = [[0]; [0]; [0]; [0]].
 Proof. vm_compute. split; reflexivity. Qed.
 Print Assumptions C13_nonvacuous.
+
+(* consequently every Hodge Laplacian L_k = B_k^T B_k + B_{k+1} B_{k+1}^T is symmetric ... *)
+Theorem C13_hodge_symmetric : forall s orient o i j,
+  let n := length (cols_of s orient o) in
+  (i < n)%nat -> (j < n)%nat -> entry (hodge_laplacian s orient o) i j = entry (hodge_laplacian s orient o) j i.
+Proof. exact hodge_symmetric. Qed.
+Print Assumptions C13_hodge_symmetric.
+
+(* ... and positive semidefinite: x^T L x >= 0 for every integer vector (hence every real one), for
+   every complex, every order and every orientation; the quadratic form is a sum of squares *)
+Theorem C13_hodge_psd : forall s orient o (x : nat -> Z),
+  let n := length (cols_of s orient o) in
+  0 <= sumZ (fun i => sumZ (fun j => x i * entry (hodge_laplacian s orient o) i j * x j) (seq 0 n)) (seq 0 n).
+Proof. exact hodge_psd. Qed.
+Print Assumptions C13_hodge_psd.
+
+(* the reference orientation is canonical: the sorted form of a simplex depends only on its node set *)
+Theorem C13_sort_canonical : forall l1 l2,
+  NoDup l1 -> NoDup l2 -> (forall y, In y l1 -> orderable y) -> (forall x, In x l1 <-> In x l2) ->
+  sort_simplex l1 = sort_simplex l2.
+Proof. exact sort_simplex_canonical. Qed.
+Print Assumptions C13_sort_canonical.
+
+(* the chain-complex identity for the matrices of the model: at every state of a simplicial complex
+   reachable by any history (C03's invariant), with numbers or strings as node labels, for every
+   orientation assignment and every order, every entry of B_k B_{k+1} is zero *)
+Theorem C13_boundary_product_zero : forall ops orient k i j,
+  let s := srun ops hg_empty in
+  Orderable s ->
+  let Bk := boundary_matrix s orient k in
+  let Bk1 := boundary_matrix s orient (S k) in
+  (i < length Bk)%nat -> (j < length (cols_of s orient (S k)))%nat ->
+  dot (nth i Bk []) (col 0 Bk1 j) = 0.
+Proof.
+  intros ops orient k i j s Ho. apply boundary_product_zero; [|exact Ho].
+  exact (srun_SInv ops hg_empty SInv_empty).
+Qed.
+Print Assumptions C13_boundary_product_zero.
